@@ -83,10 +83,19 @@ def run(pid, tier, sel):
     Returns {records, functions, trusted, assumptions, ...}."""
     d = tempfile.mkdtemp(prefix="mina-verif-v.", dir=os.environ.get("TMPDIR", "/tmp"))
     try:
-        text, rep = extract_verus.assemble()
+        cannot_apply = None
+        try:
+            text, rep = extract_verus.assemble()
+        except Undecided as e:
+            # an anchor of the extraction is gone (the function was restructured): same fallback as a type error
+            cannot_apply = str(e)
+            text, rep = "", {"functions": [], "edits_applied": [], "dropped": [], "edits_catalogue": {}, "assumption_scan": {}}
         path = os.path.join(d, "mina_subtimeline.rs")
-        open(path, "w").write(text)
-        data, stderr, dt, cmd = run_verus(path)
+        if cannot_apply is None:
+            open(path, "w").write(text)
+            data, stderr, dt, cmd = run_verus(path)
+        else:
+            data, stderr, dt, cmd = {"verification-results": {"encountered-vir-error": True}}, cannot_apply, 0.0, "verus (not run: %s)" % cannot_apply[:120]
         res = data.get("verification-results", {})
         if res.get("encountered-vir-error") or (res.get("encountered-error") and res.get("verified", 0) == 0 and res.get("errors", 0) == 0):
             # The extracted text no longer type-checks under the contracts (the functions were restructured).
